@@ -60,6 +60,12 @@ func (e *Exec) errorText(caller *frame, v Value) string {
 		}
 		return h.kind
 	}
+	if it.t == e.prog.runtimeErrType {
+		if s, ok := it.v.(Str); ok && s.IsConcrete() {
+			return s.s
+		}
+		return "runtime error"
+	}
 	// call the Error method of the dynamic type
 	errM := e.prog.errorIface.Method(0)
 	f := e.prog.lookupMethod(it.t, errM)
